@@ -87,8 +87,10 @@ def jobs(tier, seed):
         if tier == "quick":
             # mid-year, each transition day and its neighbours are kept; year ends only for two zones
             ds = [d for d in ds if d.month not in (1, 12) or zone in ("UTC", "Pacific/Kiritimati")]
-        for d in ds:
-            js.append({"zone": zone, "date": d.isoformat(), "tier": tier})
+        # one job per zone and half of its dates (in sequence: state kept from one date to the next shows inside the job)
+        for half in (ds[0::2], ds[1::2]):
+            if half:
+                js.append({"zone": zone, "dates": [d.isoformat() for d in half], "tier": tier})
     return js
 
 
@@ -150,6 +152,12 @@ def judge_listing(res, case, zone, records, out):
 
 def run_job(job):
     res = Res()
+    for d in job["dates"]:
+        run_date({"zone": job["zone"], "date": d, "tier": job["tier"]}, res)
+    return res
+
+
+def run_date(job, res):
     zone = job["zone"]
     date = datetime.date.fromisoformat(job["date"])
     tier = job["tier"]
@@ -206,7 +214,7 @@ def run_job(job):
             if not Z.local_to_epochs(zone, date, a // 60, a % 60) or not Z.local_to_epochs(zone, date, b // 60, b % 60):
                 res.counters["roundtrip_nonexistent_minute_skipped"] += 1
                 continue
-            for days in (sets if (tier == "thorough" or pi % 16 == 0) else sets[pi % 7::7]):
+            for days in (sets if (tier == "thorough" or pi % 48 == 0) else sets[pi % 16::16]):
                 case = {"kind": "roundtrip", "zone": zone, "date": job["date"], "start": hm(a), "end": hm(b), "days": list(days)}
                 roundtrip(res, run, case)
         res.outcome(zone)
